@@ -71,3 +71,5 @@ RULES["C02"] = [
   ("<fonts::BitFont as std::default::Default>::default|S4|", "reviewed", "font page 0 is the embedded CP437 font (include_bytes!), a valid PSF2 file"),
   ("layer::Layer::new|S3|resize(", "reviewed", "only non-negativity of the height is unproven; every loader passes sizes built from unsigned header fields or constants (T6)"),
 ] + RULES["C01"]
+
+RULES["C14"] = [r for r in RULES["C01"] if "sixel" in r[0].lower() or "Sixel" in r[0]]
